@@ -141,6 +141,10 @@ func propC17Notation(c notationCase, o *hx.Obs) *hx.Failure {
 			}
 		}
 	}
+	// "no move" is not a legal move
+	if mg.ValidateMove(ep, types.MoveNone) {
+		return hx.Failf("C17/validate/accepts-illegal", "%s: ValidateMove(MoveNone)=true", c.Fen)
+	}
 	// pseudo-legal but illegal moves must be rejected in every notation
 	legalSet := multiset(legal)
 	for _, m := range rp.PseudoLegal() {
